@@ -7,6 +7,8 @@ from ..rules_e2 import run_e2
 def run(ctx, rep):
     run_e1(ctx, rep, lambda E: E.public_result_roots(), min_roots=300, min_sites=800)
     run_contracts(ctx, rep)
+    from ..rules_contract import transient_callers
+    transient_callers(rep, ctx.prog("Q"))
     import os
     if os.path.exists(os.path.join(os.path.dirname(__file__), '..', '..', 'reviewed', 'ranged.tsv')):
         run_e2(ctx, rep, floor=500)
